@@ -213,12 +213,12 @@ PROPS["C13"] = {
 }
 
 NOT_APPLICABLE = {
-    "C16": "OS-level effects (posix_spawn file actions, pipes, /bin/sh, waitpid, cross-thread output order) sit behind unsafe FFI and threads; no contract on n2's own code can express them (DESIGN.md §8)",
+    "C16": "OS-level effects (posix_spawn file actions, pipes, /bin/sh, waitpid, cross-thread output order) sit behind unsafe FFI and threads; no contract on n2's own code can express them (DESIGN.md §8). Two of its clauses are decided elsewhere and reported there: 'exit status 0 is success, any other status or a signal is a failure, SIGINT an interruption' (unit proc, under C05/C01/C19), and 'depfile read after success' (unit task, under C09)",
 }
 
 LEVEL_TEXT = {
     "C13": {
-        "text": "Unbounded proof (Verus) on the real text of canon.rs canonicalize_path: for every non-empty byte string with at most 60 component starts the in-place rewrite leaves exactly cn::canon(input) -- a recursive spec function with one case per component kind (empty and `.` removed, `..` removes the preceding kept component or is kept when there is none, root kept, everything else copied) -- with all indices in bounds, dst <= src, and 1 <= output length <= input length (loop invariant: run(input, src, data[..dst], stack) is constant).  Call sites Loader::path, Work::lookup and Work::record_finished hand only canonicalised names to the name->id map (precondition of the trusted map stubs).  Adequacy of the spec function (idempotent, canonical form, same location) is a BOUNDED exhaustive check by Verus `by (compute)` over all strings up to length 5/7 over {a . / \\}.",
+        "text": "Unbounded proof (Verus) on the real text of canon.rs canonicalize_path: for every non-empty byte string with at most 60 component starts the in-place rewrite leaves exactly cn::canon(input) -- a recursive spec function with one case per component kind (empty and `.` removed, `..` removes the preceding kept component or is kept when there is none, root kept, everything else copied) -- with all indices in bounds, dst <= src, and 1 <= output length <= input length (loop invariant: run(input, src, data[..dst], stack) is constant).  Call sites Loader::path, Work::lookup and Work::record_finished hand only canonicalised names to the name->id map (precondition of the trusted map stubs).  Adequacy of the spec function is PROVED for all inputs by lemmas over it (canonical form of every output, canonical implies fixpoint, hence idempotent; same lexical location); a `by (compute)` evaluation over all strings up to length 5/7 over {a . / \\} is kept as a redundant cross-check.",
         "note": "proof (refinement, safety, length, idempotence, canonical form, location equivalence, call sites); the bounded compute check is redundant.  Trusted: StackStack model, as_mut_vec/set_len, char-level idempotence axiom at call sites.",
         "design_ref": "DESIGN.md §6 C13",
     },
